@@ -4,6 +4,7 @@ import (
 	"encoding/binary"
 	"errors"
 	"fmt"
+	"math"
 )
 
 const (
@@ -132,6 +133,10 @@ var (
 	// ErrPanic and errors wrapping ErrPanic report runtime errors, such
 	// as an index out of bounds or a stack overflow.
 	ErrPanic = errors.New("user error")
+	// ErrTooLarge is returned by the compiler when a program needs an
+	// operand, such as a constant index, a literal length or a jump
+	// target, that does not fit into the 16 bit operands of the bytecode.
+	ErrTooLarge = errors.New("program too large")
 	// ErrUnknownOpcode is returned when an unknown opcode is encountered.
 	ErrUnknownOpcode = fmt.Errorf("%w: unknown opcode", ErrInternal)
 )
@@ -214,7 +219,10 @@ func Make(op Opcode, operands ...int) ([]byte, error) {
 	for i, o := range operands {
 		width := def.OperandWidths[i]
 		if width == 2 {
-			binary.BigEndian.PutUint16(instruction[offset:], uint16(o)) //nolint:gosec // we are just going to be lax about overflow errors at the moment
+			if o < 0 || o > math.MaxUint16 {
+				return nil, fmt.Errorf("%w: operand %d of %s does not fit into 16 bits", ErrTooLarge, o, def.Name)
+			}
+			binary.BigEndian.PutUint16(instruction[offset:], uint16(o))
 		}
 		offset += width
 	}
